@@ -43,6 +43,110 @@ def Seq.erase (l : List α) (v : α) : List α := l.filter (· ≠ v)
 def Seq.insertAll (l : List α) (vs : List α) : List α := vs.foldl Seq.insert l
 def Seq.eraseAll (l : List α) (vs : List α) : List α := vs.foldl Seq.erase l
 
+/-! ### histories over a file of registers holding abstract sets -/
+
+inductive SOp (α : Type) where
+  | add (i : Nat) (vs : List α)
+  | remove (i : Nat) (vs : List α)
+  | removeAll (i : Nat)
+  | contains (i : Nat) (vs : List α)
+  | size (i : Nat)
+  | isEmpty (i : Nat)
+  | all (i : Nat)
+  | equal (i j : Nat)
+  | subset (i j : Nat)
+  | superset (i j : Nat)
+  | clone (d i : Nat)
+  | cloneEmpty (d i : Nat)
+  | new (d : Nat)
+  | union (d i : Nat) (js : List Nat)
+  | inter (d i : Nat) (js : List Nat)
+  | diff (d i : Nat) (js : List Nat)
+
+inductive SObs (α : Type) where
+  | unit
+  | bool (b : Bool)
+  | int (n : Int)
+  | elems (s : FSet α)
+  | bad
+
+def getAll (A : List (FSet α)) : List Nat → Option (List (FSet α))
+  | [] => some []
+  | j :: js =>
+    match A[j]?, getAll A js with
+    | some a, some as => some (a :: as)
+    | _, _ => none
+
+def sstep (A : List (FSet α)) : SOp α → List (FSet α) × SObs α
+  | .add i vs =>
+    match A[i]? with
+    | none => (A, .bad)
+    | some a => (A.set i (a.insertAll vs), .unit)
+  | .remove i vs =>
+    match A[i]? with
+    | none => (A, .bad)
+    | some a => (A.set i (a.eraseAll vs), .unit)
+  | .removeAll i =>
+    match A[i]? with
+    | none => (A, .bad)
+    | some _ => (A.set i FSet.empty, .unit)
+  | .contains i vs =>
+    match A[i]? with
+    | none => (A, .bad)
+    | some a => (A, .bool (a.memAll vs))
+  | .size i =>
+    match A[i]? with
+    | none => (A, .bad)
+    | some a => (A, .int a.card)
+  | .isEmpty i =>
+    match A[i]? with
+    | none => (A, .bad)
+    | some a => (A, .bool (a.card == 0))
+  | .all i =>
+    match A[i]? with
+    | none => (A, .bad)
+    | some a => (A, .elems a)
+  | .equal i j =>
+    match A[i]?, A[j]? with
+    | some a, some b => (A, .bool (a.eq b))
+    | _, _ => (A, .bad)
+  | .subset i j =>
+    match A[i]?, A[j]? with
+    | some a, some b => (A, .bool (a.subset b))
+    | _, _ => (A, .bad)
+  | .superset i j =>
+    match A[i]?, A[j]? with
+    | some a, some b => (A, .bool (b.subset a))
+    | _, _ => (A, .bad)
+  | .clone d i =>
+    match A[i]? with
+    | some a => if d < A.length then (A.set d a, .unit) else (A, .bad)
+    | none => (A, .bad)
+  | .cloneEmpty d i =>
+    match A[i]? with
+    | some _ => if d < A.length then (A.set d FSet.empty, .unit) else (A, .bad)
+    | none => (A, .bad)
+  | .new d => if d < A.length then (A.set d FSet.empty, .unit) else (A, .bad)
+  | .union d i js =>
+    match A[i]?, getAll A js with
+    | some a, some bs => if d < A.length then (A.set d (a.unionAll bs), .elems (a.unionAll bs)) else (A, .bad)
+    | _, _ => (A, .bad)
+  | .inter d i js =>
+    match A[i]?, getAll A js with
+    | some a, some bs => if d < A.length then (A.set d (a.interAll bs), .elems (a.interAll bs)) else (A, .bad)
+    | _, _ => (A, .bad)
+  | .diff d i js =>
+    match A[i]?, getAll A js with
+    | some a, some bs => if d < A.length then (A.set d (a.diffAll bs), .elems (a.diffAll bs)) else (A, .bad)
+    | _, _ => (A, .bad)
+
+def srun : List (SOp α) → List (FSet α) → List (FSet α) × List (SObs α)
+  | [], A => (A, [])
+  | op :: ops, A =>
+    let (A, o) := sstep A op
+    let (A, os) := srun ops A
+    (A, o :: os)
+
 omit [DecidableEq α] in
 /-- `P` (a list of blocks) is a partition of the set `s`: no block is empty, every element of `s` lies in
 exactly one block and nothing else does. -/
